@@ -28,9 +28,11 @@ Oracle = graph search on the spec (no dclab code involved):
 """
 import collections
 import gc
+import json
 import os
 import pathlib
 
+import h5py
 import numpy as np
 from hypothesis import strategies as st
 
@@ -282,6 +284,10 @@ def st_spec(draw):
             "type": typ, "locs": locs, "feats": feats,
             "map": (draw(st.lists(st.integers(0, n - 1), min_size=n, max_size=n))
                     if mapped else None)})
+    for f in files:
+        # definitions of unmapped basins in the legacy form (no "mapping" key; written
+        # by dclab < 0.58 and third-party tools): documented to mean identical mapping
+        f["legacy"] = draw(st.sampled_from([False, False, True]))
     opens = draw(st.sampled_from([["local"], ["local"], ["local", "http"], ["http"],
                                   ["local", "s3sim"], ["s3sim"],
                                   ["local", "http", "s3sim"]]))
@@ -571,7 +577,25 @@ def _write(d, spec, srv):
                     basin_map=(None if e["map"] is None
                                else np.array(e["map"], dtype=np.uint64)),
                     verify=False)
+        if f.get("legacy"):
+            _strip_mapping_key(paths[i])
     return paths
+
+
+def _strip_mapping_key(path):
+    """rewrite the definitions of unmapped basins without their "mapping" key"""
+    with h5py.File(path, "a") as h5:
+        grp = h5.get("basins")
+        for bk in sorted(grp.keys() if grp is not None else []):
+            lines = [ln.decode("utf-8") if isinstance(ln, bytes) else str(ln)
+                     for ln in grp[bk][:]]
+            bd = json.loads(" ".join(lines))
+            if bd.get("mapping", "same") != "same" or "mapping" not in bd:
+                continue
+            bd.pop("mapping")
+            text = json.dumps(bd, indent=2).split("\n")
+            del grp[bk]
+            grp.create_dataset(bk, data=np.array([t.encode("utf-8") for t in text]))
 
 
 def _count_classes(spec, rec):
@@ -584,6 +608,11 @@ def _count_classes(spec, rec):
     for f in files:
         if f["internal"] is not None:
             seen.add("type:internal")
+        unm = [e for e in f["edges"] if e["map"] is None]
+        if f.get("legacy") and unm:
+            seen.add("def:legacy-no-mapping-key")
+            if f["internal"] is not None or len(unm) < len(f["edges"]):
+                seen.add("def:legacy-beside-mapped")
         r = RID[f["rid"]]
         for e in f["edges"]:
             seen.add(f"type:{e['type']}")
